@@ -13,6 +13,7 @@
   The proofs live in Proofs/Lemmas/Eval*.lean; this file restates the results.
 -/
 import Proofs.Lemmas.EvalCalls
+import Proofs.Lemmas.ChainE2E
 
 namespace Xsel.C02
 open Xsel Arena
@@ -239,5 +240,48 @@ example : sumSafe true
       (.cons (.step (.step .root .descendantOrSelf .node .nil) .child (.name "x".toList) .nil)
         .nil)) = true := by
   simp [sumSafe, sumSafeL, ascending, sumArgAsc, Axis.isReverse]
+
+end Xsel.C02
+
+/-! ## end-to-end forms (Proofs/Lemmas/ChainE2E.lean) -/
+
+namespace Xsel.C02
+open Xsel Arena
+
+/-- **exec_refines_spec'** — `exec_refines_spec` with the string-value hypothesis `hsv` discharged:
+    on a well-formed arena `Model.strval` IS the XPath string-value (`Strval.strval_refines'`). -/
+theorem exec_refines_spec' (a : Arena) (h : wfb a = true)
+    (env : Env) (henv : EnvOk a env) (e : Expr) (ca : Bool)
+    (hs : sumSafe ca e = true) (hb : prefixesBound env e = true)
+    (c c' : Ctx) (hc : Ctx.Equiv c c') (hok : Val.Ok a c.result)
+    (hasc : ca = true → Val.Asc c.result ∧ Val.Asc c'.result)
+    (ha : c.a = a) (he : c.env = env) :
+    Res.Equiv (eval Model.sem e c) (eval Spec.semKF e c') :=
+  Chain.exec_refines_spec' a h env henv e ca hs hb c c' hc hok hasc ha he
+
+/-- **run_refines_spec'** — `exec.Exec` from a start node of ANY arena that satisfies the Cursor
+    contract returns what the specification (with the recorded `round` deviation) returns, up to
+    the listing order of a node-set, or both fail.  The only hypotheses left are the Cursor
+    contract, `EnvOk`, and the two syntactic side conditions. -/
+theorem run_refines_spec' (a : Arena) (h : wfb a = true) (env : Env) (henv : EnvOk a env)
+    (e : Expr) (start : Nat) (hs : start < a.size) (hsum : sumSafe true e = true)
+    (hb : prefixesBound env e = true) :
+    Res.Equiv (Model.run a env start e) (Spec.runKF a env start e) :=
+  Chain.run_refines_spec' a h env henv e start hs hsum hb
+
+/-- `Spec.semKF` differs from `Spec.sem` only in `round`, which the function library reads only
+    for the builtins `round` and `substring`: on an expression that calls neither
+    (`Chain.noRound`, decidable, syntactic) the two specifications coincide -/
+theorem semKF_eq_sem_of_noRound (e : Expr) (h : Chain.noRound e = true) (c : Ctx) :
+    eval Spec.semKF e c = eval Spec.sem e c :=
+  Chain.semKF_eq_sem_of_noRound e h c
+
+/-- **run_refines_spec_noRound** — for such expressions the refinement holds against the
+    UNMODIFIED XPath 1.0 specification `Spec.sem` -/
+theorem run_refines_spec_noRound (a : Arena) (h : wfb a = true) (env : Env) (henv : EnvOk a env)
+    (e : Expr) (start : Nat) (hs : start < a.size) (hsum : sumSafe true e = true)
+    (hb : prefixesBound env e = true) (hnr : Chain.noRound e = true) :
+    Res.Equiv (Model.run a env start e) (Spec.run a env start e) :=
+  Chain.run_refines_spec_noRound a h env henv e start hs hsum hb hnr
 
 end Xsel.C02
